@@ -54,6 +54,7 @@ var unsafeBuiltinsMap = map[string]struct{}{
 	ast.WalkBuiltin.Name:     {},
 	ast.OPARuntime.Name:      {},
 	ast.RegoParseModule.Name: {},
+	ast.NetLookupIPAddr.Name: {},
 }
 
 func CompileRego(regoUnit *generator.RegoUnit, eventChan *chan e.Event) (*rego.PreparedEvalQuery, error) {
